@@ -9,6 +9,7 @@ Everything that is a table or a predicate in the source comes from `Gen.Validati
 -/
 import Strengths.Model.Network
 import Strengths.Model.Grid
+import Strengths.Model.Coarsegrain
 import Strengths.Gen.Validation
 
 namespace Strengths
@@ -197,29 +198,8 @@ def arrayTextElement (field : String) (sys : Sys) (v : Rat) (unitsText : String)
 
 /-! ### Coarse-graining index maps (`check_index_map_validity`) -/
 
-def v_listMax : List Int → Int
-  | [] => 0
-  | a :: r => r.foldl max a
-def v_listMin : List Int → Int
-  | [] => 0
-  | a :: r => r.foldl min a
-
-/-- environment-consistency loop: `envOut` maps an output node to the environment seen first -/
-def v_envLoop : List (Int × Int) → List (Int × Int) → Bool
-  | [], _ => true
-  | (m, e) :: r, envOut =>
-    if m == -1 then v_envLoop r envOut
-    else match envOut.lookup m with
-      | none => v_envLoop r ((m, e) :: envOut)
-      | some e0 => if e0 == e then v_envLoop r envOut else false
-
-/-- `check_index_map_validity(im, space)` for a map of Python ints (`im` non-empty is implied by a space of size ≥ 1) -/
-def vCheckIndexMap (im : List Int) (env : List Int) : Res Unit :=
-  if im.length != env.length then .error .badValue
-  else if im.isEmpty then .error .badValue             -- `max([])` raises
-  else if v_listMin im < -1 then .error .badValue
-  else if v_listMax im < 0 then .error .badValue
-  else if (List.range (v_listMax im).toNat).any (fun i => !im.contains (i : Int)) then .error .badValue
-  else if v_envLoop (im.zip env) [] then .ok () else .error .badValue
+/-- `check_index_map_validity(im, space)`: the model of the coarse-graining builder (`Model/Coarsegrain.lean`,
+every test generated from coarsegrain.py by group `CoarsePy`); `none` = an entry that is not a Python `int` -/
+def vCheckIndexMap (im : List (Option Int)) (env : List Int) : Res Unit := checkIndexMap im env
 
 end Strengths
